@@ -844,8 +844,8 @@ func c12RunPkg(ctx *core.Ctx, ref core.CaseRef, r *rand.Rand, nrows int) {
 	pf, pg, pa := c12Path(fast), c12Path(gen), c12Path(alt)
 	ctx.Count("package.path."+pf, 1)
 	if pg != "general" || pa != "general" {
-		ctx.Inconclusive("parenthesised twin not reported on the general path (" + pg + "/" + pa + ")")
-		return
+		// the twins are no independent comparators then; plain expr-lang and the reference still judge the decisions
+		ctx.Count("package.parenthesised_twin_not_on_the_general_path", 1)
 	}
 	van := c12Vanilla(fast)
 	agg := newC12Agg()
